@@ -28,7 +28,7 @@ type ufeCase struct {
 // drawUFECase draws a body (static and dynamic blocks of one type, some over unknown
 // collections, static blocks reading variables of their own) and a block-collection spec.
 func drawUFECase(t *rapid.T) ufeCase {
-	kind := rapid.SampledFrom([]string{"list", "list", "set", "tuple", "map", "map2", "object"}).Draw(t, "speckind")
+	kind := rapid.SampledFrom([]string{"list", "list", "set", "tuple", "map", "map2", "object", "single"}).Draw(t, "speckind")
 	nlabels := 0
 	switch kind {
 	case "map", "object":
@@ -37,6 +37,12 @@ func drawUFECase(t *rapid.T) ufeCase {
 		nlabels = 2
 	}
 	nested := rapid.IntRange(0, 2).Draw(t, "nested") == 0
+	noAttrs := false
+	if kind == "single" {
+		// a single block read as such: the placeholder body of an unknown for_each is descended into
+		nested = true
+		noAttrs = rapid.Bool().Draw(t, "content_without_attributes")
+	}
 	kty := cty.String
 	if kind == "tuple" || kind == "object" {
 		kty = cty.DynamicPseudoType // not allowed inside the homogeneous collections
@@ -61,6 +67,9 @@ func drawUFECase(t *rapid.T) ufeCase {
 		spec = &hcldec.BlockMapSpec{TypeName: "b", LabelNames: labelNames, Nested: innerAttrs}
 	default:
 		spec = &hcldec.BlockObjectSpec{TypeName: "b", LabelNames: labelNames, Nested: innerAttrs}
+	}
+	if kind == "single" {
+		spec = &hcldec.BlockSpec{TypeName: "b", Nested: innerAttrs}
 	}
 	if rapid.Bool().Draw(t, "wrapped") {
 		spec = hcldec.ObjectSpec{"bs": spec, "top": &hcldec.AttrSpec{Name: "top", Type: cty.String}}
@@ -107,6 +116,9 @@ func drawUFECase(t *rapid.T) ufeCase {
 	// body
 	var sb strings.Builder
 	nItems := rapid.IntRange(1, 5).Draw(t, "nitems")
+	if kind == "single" {
+		nItems = 1
+	}
 	unknownPresent, knownNeighbour, labelSeq := false, false, 0
 	labelsFor := func(dynamic bool, it string) string {
 		var ls []string
@@ -143,7 +155,7 @@ func drawUFECase(t *rapid.T) ufeCase {
 		return ib.String()
 	}
 	for i := 0; i < nItems; i++ {
-		if rapid.IntRange(0, 2).Draw(t, "static") == 0 {
+		if kind != "single" && rapid.IntRange(0, 2).Draw(t, "static") == 0 {
 			ls := labelsFor(false, "")
 			ls = strings.ReplaceAll(ls, ", ", " ")
 			if rapid.Bool().Draw(t, "static_reads_variable") {
@@ -170,7 +182,11 @@ func drawUFECase(t *rapid.T) ufeCase {
 		} else {
 			knownNeighbour = true
 		}
-		fmt.Fprintf(&sb, "dynamic \"b\" {\n  for_each = %s\n%s%s  content {\n    v = %s.value\n    k = %s.key\n%s  }\n}\n", fe, iterLine, labelLine, it, it, innerText(it, "    "))
+		attrText := fmt.Sprintf("    v = %s.value\n    k = %s.key\n", it, it)
+		if noAttrs {
+			attrText = ""
+		}
+		fmt.Fprintf(&sb, "dynamic \"b\" {\n  for_each = %s\n%s%s  content {\n%s%s  }\n}\n", fe, iterLine, labelLine, attrText, innerText(it, "    "))
 	}
 	if rapid.Bool().Draw(t, "top_attr") {
 		sb.WriteString("top = \"t\"\n")
@@ -214,6 +230,37 @@ func TestC18_UnknownForEach(t *testing.T) {
 				if strings.HasPrefix(n, "u") && v.LengthInt() != 1 {
 					sizeNotOne = true
 				}
+			}
+			if kind == "single" {
+				// ext/dynblock's placeholder for an unknown for_each "reports everything inside it as
+				// unknown": below the single block no attribute value is known and no nested block
+				// collection that has blocks is known (whether there is a block at all is the
+				// documented compromise and not judged)
+				if !ad.HasErrors() && unknownPresent {
+					u, _ := av.UnmarkDeep()
+					bv := u
+					if u.Type().IsObjectType() && u.Type().HasAttribute("bs") {
+						bv = u.GetAttr("bs")
+					}
+					if bv.IsKnown() && !bv.IsNull() {
+						_ = cty.Walk(bv, func(p cty.Path, x cty.Value) (bool, error) {
+							if !x.IsKnown() || x.IsNull() {
+								return false, nil
+							}
+							ty := x.Type()
+							if ty.IsPrimitiveType() {
+								c.Failf("unknown-for-each-known-leaf", "below the block generated from an unknown for_each the value at %v is known: %#v (whole result %#v)", p, x, av)
+							}
+							if (ty.IsListType() || ty.IsSetType() || ty.IsTupleType() || ty.IsMapType()) && x.LengthInt() > 0 && len(p) > 0 {
+								c.Failf("unknown-for-each-known-leaf", "below the block generated from an unknown for_each the block collection at %v is known: %#v (whole result %#v)", p, x, av)
+							}
+							return true, nil
+						})
+					}
+					c.Class("single_block_placeholder_judged")
+				}
+				c.Done(unknownPresent && !ad.HasErrors(), src+"|"+kind)
+				return
 			}
 			if ad.HasErrors() || cd.HasErrors() {
 				c.Class("some_run_error")
